@@ -2,6 +2,7 @@
 // multiple-edge case fall through to the algorithm, and returns 1 after a completed run.
 #include <cstdio>
 #include <iostream>
+#include <iomanip>
 #include <list>
 #include <boost/graph/adjacency_list.hpp>
 #include <boost/mpi.hpp>
@@ -27,6 +28,9 @@ int main(int argc, char *argv[]) {
     }
     if (parmcb::has_non_positive_weights(graph, get(boost::edge_weight, graph))) {
         return EXIT_SUCCESS;
+    }
+    if (argc > 3) {
+        std::cout << "verbose: " << std::fixed << std::setprecision(3) << 0.5 << std::endl;   // R11e: sticky, option-dependent
     }
     std::list<std::list<edge_descriptor>> cycles;
     double mcb_weight = 0;
